@@ -107,4 +107,112 @@ theorem mem_gmIndices (n l i : Int) : i ∈ gmIndices n l ↔ 0 ≤ i ∧ i < gm
   · rintro ⟨a, ha, rfl⟩; omega
   · rintro ⟨h0, h1⟩; exact ⟨i.toNat, by omega, by omega⟩
 
+/-! ## `dist_transform`: every read of the scratch arrays `v`, `z` hits a stored cell -/
+
+def DOk (l : List DRead) : Prop := ∀ r ∈ l, r.idx < r.stored
+
+theorem dOk_iff (l : List DRead) : l.all DRead.ok = true ↔ DOk l := by
+  simp [DOk, DRead.ok]
+
+theorem DOk.append {a b : List DRead} (ha : DOk a) (hb : DOk b) : DOk (a ++ b) := by
+  intro r hr
+  rcases List.mem_append.mp hr with h | h
+  · exact ha r h
+  · exact hb r h
+
+theorem dtPopD_ok (cmp : Nat → Nat → Bool) (q W : Nat) (hcmp : cmp q 0 = true) : ∀ k, k < W →
+    DOk (dtPopD cmp q W k).1 ∧ ∃ kb, (dtPopD cmp q W k).2 = some kb ∧ kb ≤ k := by
+  intro k
+  induction k with
+  | zero =>
+    intro hk
+    simp only [dtPopD, hcmp, if_true]
+    refine ⟨?_, 0, rfl, Nat.le_refl _⟩
+    intro r hr
+    simp only [List.mem_cons, List.mem_nil_iff, or_false] at hr
+    rcases hr with rfl | rfl <;> simp only <;> omega
+  | succ k ih =>
+    intro hk
+    simp only [dtPopD]
+    split
+    · refine ⟨?_, k + 1, rfl, Nat.le_refl _⟩
+      intro r hr
+      simp only [List.mem_cons, List.mem_nil_iff, or_false] at hr
+      rcases hr with rfl | rfl <;> simp only <;> omega
+    · obtain ⟨h1, kb, h2, h3⟩ := ih (by omega)
+      refine ⟨?_, kb, h2, by omega⟩
+      intro r hr
+      simp only [List.mem_cons] at hr
+      rcases hr with rfl | rfl | hr
+      · simp only; omega
+      · simp only; omega
+      · exact h1 r hr
+
+theorem dtFirstD_ok (cmp : Nat → Nat → Bool) (hcmp : ∀ q, cmp q 0 = true) : ∀ (c q k W : Nat), k < W →
+    DOk (dtFirstD cmp c q k W).1 ∧ ∃ k' W', (dtFirstD cmp c q k W).2 = some (k', W') ∧ k' < W' := by
+  intro c
+  induction c with
+  | zero => intro q k W h; exact ⟨by intro r hr; simp [dtFirstD] at hr, k, W, rfl, h⟩
+  | succ c ih =>
+    intro q k W h
+    obtain ⟨h1, kb, h2, h3⟩ := dtPopD_ok cmp q W (hcmp q) k h
+    simp only [dtFirstD]
+    have e : dtPopD cmp q W k = ((dtPopD cmp q W k).1, some kb) := by rw [← h2]
+    rw [e]
+    simp only
+    obtain ⟨g1, k', W', g2, g3⟩ := ih (q + 1) (kb + 1) (max W (kb + 2)) (by omega)
+    exact ⟨h1.append g1, k', W', g2, g3⟩
+
+theorem dtAdvanceD_ok (lt2 : Nat → Nat → Bool) (q W kfin : Nat) (hW : kfin < W) (hlt : lt2 q kfin = false) :
+    ∀ (f k : Nat), k ≤ kfin → DOk (dtAdvanceD lt2 q W f k).1 ∧ (dtAdvanceD lt2 q W f k).2 ≤ kfin := by
+  intro f
+  induction f with
+  | zero => intro k hk; exact ⟨by intro r hr; simp [dtAdvanceD] at hr, hk⟩
+  | succ f ih =>
+    intro k hk
+    simp only [dtAdvanceD]
+    split
+    · rename_i hl
+      have hne : k ≠ kfin := by intro e; rw [e, hlt] at hl; cases hl
+      obtain ⟨h1, h2⟩ := ih (k + 1) (by omega)
+      refine ⟨?_, h2⟩
+      intro r hr
+      simp only [List.mem_cons] at hr
+      rcases hr with rfl | hr
+      · simp only; omega
+      · exact h1 r hr
+    · refine ⟨?_, hk⟩
+      intro r hr
+      simp only [List.mem_cons, List.mem_nil_iff, or_false] at hr
+      rcases hr with rfl | rfl <;> simp only <;> omega
+
+theorem dtSecondD_ok (lt2 : Nat → Nat → Bool) (n W kfin : Nat) (hW : kfin < W) (hlt : ∀ q, lt2 q kfin = false) :
+    ∀ (c q k : Nat), k ≤ kfin → DOk (dtSecondD lt2 n W c q k) := by
+  intro c
+  induction c with
+  | zero => intro q k _ r hr; simp [dtSecondD] at hr
+  | succ c ih =>
+    intro q k hk
+    simp only [dtSecondD]
+    obtain ⟨h1, h2⟩ := dtAdvanceD_ok lt2 q W kfin hW (hlt q) (n + 2) k hk
+    exact h1.append (ih (q + 1) _ h2)
+
+/-- the `k` the first loop ends with (`z[k+1] = inf` is the sentinel of the second loop) -/
+def dtKfin (cmp : Nat → Nat → Bool) (n : Nat) : Nat :=
+  match (dtFirstD cmp (n - 1) 1 0 1).2 with
+  | some (k, _) => k
+  | none => 0
+
+theorem dtScratchReads_ok (cmp lt2 : Nat → Nat → Bool) (n : Nat) (hcmp : ∀ q, cmp q 0 = true)
+    (hlt : ∀ q, lt2 q (dtKfin cmp n) = false) :
+    DOk (dtScratchReads cmp lt2 n).1 ∧ (dtScratchReads cmp lt2 n).2.isSome = true := by
+  obtain ⟨h1, k', W', h2, h3⟩ := dtFirstD_ok cmp hcmp (n - 1) 1 0 1 (by omega)
+  have hk : dtKfin cmp n = k' := by simp only [dtKfin, h2]
+  rw [hk] at hlt
+  have e : dtFirstD cmp (n - 1) 1 0 1 = ((dtFirstD cmp (n - 1) 1 0 1).1, some (k', W')) := by rw [← h2]
+  simp only [dtScratchReads]
+  rw [e]
+  simp only
+  exact ⟨h1.append (dtSecondD_ok lt2 n W' k' h3 hlt n 0 0 (Nat.zero_le _)), rfl⟩
+
 end Mahotas.C10Alloc
